@@ -423,8 +423,10 @@ def fuzz_part(target, prop_arg, runs, max_len=256):
             with open(os.path.join(corpus, "seed%02d" % i), "wb") as fh:
                 fh.write(bytes(rng.randrange(256) for _ in range(rng.randrange(8, max_len))))
         cmd = ["cargo", "+nightly", "fuzz", "run", target, corpus, "--", "-runs=%d" % runs[tier], "-seed=%d" % (seed() % 2**31 or 1),
-               "-max_len=%d" % max_len, "-len_control=0", "-print_final_stats=1", "-artifact_prefix=" + art + "/"]
-        run_env = {"VERIF_FUZZ_PROP": prop_arg}
+               "-max_len=%d" % max_len, "-len_control=0", "-print_final_stats=1", "-artifact_prefix=" + art + "/",
+               # leaks are the ledger's business (natively); one field type of the menu leaks on purpose
+               "-detect_leaks=0"]
+        run_env = {"VERIF_FUZZ_PROP": prop_arg, "ASAN_OPTIONS": "detect_leaks=0"}
         run_env.update(build_env)
         rc, log = run(cmd, cwd=fdir, timeout=6 * 3600, extra_env=run_env)
         stats = dict(re.findall(r"stat::(\w+):\s+(\d+)", log))
